@@ -399,9 +399,32 @@ func declaredInputsRule(c *Ctx, r *Report, rule string, pick func(ai accessorInp
 		n++
 		if ai.sect != nil {
 			var diffs []string
+			// under school k the accessor reads at least the inputs declared for k, and nothing beyond the
+			// inputs declared for some school: a default-then-override reads the default's input without using it
+			union := map[string]bool{}
+			for _, atoms := range sp.Sect {
+				for _, a := range atoms {
+					union[a] = true
+				}
+			}
 			for _, k := range []string{"1", "2", "3"} {
-				if !equalStrs(ai.sect[k], sp.Sect[k]) {
-					diffs = append(diffs, fmt.Sprintf("sect %s: reads %v, declared %v", k, ai.sect[k], sp.Sect[k]))
+				have := map[string]bool{}
+				for _, a := range ai.sect[k] {
+					have[a] = true
+				}
+				var missing, extra []string
+				for _, a := range sp.Sect[k] {
+					if !have[a] {
+						missing = append(missing, a)
+					}
+				}
+				for _, a := range ai.sect[k] {
+					if !union[a] {
+						extra = append(extra, a)
+					}
+				}
+				if len(missing) > 0 || len(extra) > 0 {
+					diffs = append(diffs, fmt.Sprintf("sect %s: reads %v, declared %v (missing %v, beyond every school's inputs %v)", k, ai.sect[k], sp.Sect[k], missing, extra))
 				}
 			}
 			if len(diffs) == 0 {
